@@ -28,6 +28,10 @@ SECTION_NAMES = [".text", ".init", "weird name", ".text.unlikely", ".debug_x", "
                  ".eh_frame", "UPX0", ".plt.sec", ".text$mn", ".fini_array", "-", ".", "x" * 300]
 
 
+# BFD target names objdump prints in the banner (raw images and hex containers included): the banner is presentation
+TARGETS = ["elf64-x86-64", "elf32-i386", "binary", "ihex", "srec", "pei-x86-64", "pe-x86-64", "mach-o-x86-64", "elf64-little", "tekhex", "verilog", "elf32-x86-64"]
+
+
 def long_name(rng) -> str:
     """Very long (mangled) symbol names: objdump prints them in full."""
     return "_ZN" + "".join(rng.choice("abcdefghijklmnopqrstuvwxyzABCDEFGHIJKLMNOPQRSTUVWXYZ0123456789_") for _ in range(rng.choice([300, 1100, 1204, 5000])))
@@ -126,10 +130,10 @@ def edit_listing(rng, text: str):
             elif "file format" in raw and do("file-header"):
                 if rng.random() < 0.5:
                     continue
-                raw = "other.o:     file format elf32-i386"
+                raw = f"{rng.choice(['other.o', 'fw.bin', 'a b.exe', 'lib.a(member.o)'])}:     file format {rng.choice(TARGETS)}"
             out.append(raw)
     if rng.random() < 0.3:
-        out = ["", "x.o:     file format elf64-x86-64", ""] + out
+        out = ["", f"x.o:     file format {rng.choice(TARGETS)}", ""] + out
         edits.append("file-header-added")
     r9 = rng.random()
     if r9 < 0.12:
